@@ -297,7 +297,12 @@ class Wire:
                 wp.dyn.append((c, True, None))
         for a, negs in neg_eqs.items():
             if not any(s_[0] == "eq" and s_[1] == a for s_ in wp.selectors):
-                wp.selectors.append(("else", a, tuple(negs)))
+                # small integer reasoning: an unsigned value with an upper bound and all but one value excluded
+                single = self.single_value(path, a, [n_[2][1] for n_ in negs if is_c(n_[2])])
+                if single is not None:
+                    wp.selectors.append(("eq", a, C(single), None))
+                else:
+                    wp.selectors.append(("else", a, tuple(negs)))
         # outcome
         v = path.value
         if path.kind == "panic":
@@ -313,6 +318,30 @@ class Wire:
         self.link_counts(wp, side)
         self.apply_dyn_equalities(wp)
         return wp
+
+    def single_value(self, path, a, excluded):
+        from .guards import norm_cond
+        hi = None
+        lo = 0
+        for c in path.conds:
+            if c[0] not in ("true", "false"):
+                continue
+            r = norm_cond(c)
+            if r[0] == "opaque" or r[0] != a or not is_c(r[2] if r[2] is not None else ("x",)):
+                continue
+            k = r[2][1]
+            if r[1] == "Le":
+                hi = k if hi is None else min(hi, k)
+            elif r[1] == "Lt":
+                hi = k - 1 if hi is None else min(hi, k - 1)
+            elif r[1] == "Ge":
+                lo = max(lo, k)
+            elif r[1] == "Gt":
+                lo = max(lo, k + 1)
+        if hi is None or hi - lo > 64:
+            return None
+        vals = [v for v in range(lo, hi + 1) if v not in excluded]
+        return vals[0] if len(vals) == 1 else None
 
     def norm_events(self, ip, events, wp, side, top=False):
         atoms = []
